@@ -256,10 +256,13 @@ class LogicalType(type):  # noqa
     @classmethod
     def _register_rule_refs(mcs, rule, global_vars, forward_refs, forward_key, force_clear):
         registered = False
-        for i, arg in enumerate(getattr(rule, "__args__", None) or ()):
+        args = list(getattr(rule, "__args__", None) or ())
+        transformers = list(getattr(rule, "__arg_transformers__", None) or ())
+        evaluated = False
+        for i, arg in enumerate(args):
             key = f"{forward_key}.{i}"
             if isinstance(arg, ForwardRef):
-                register_forward_ref(
+                value = register_forward_ref(
                     annotation=arg,
                     global_vars=global_vars,
                     forward_refs=forward_refs,
@@ -267,6 +270,13 @@ class LogicalType(type):  # noqa
                     force_clear=force_clear,
                 )
                 registered = True
+                if value is not None and not isinstance(value, ForwardRef):
+                    # evaluated right away (the reference may be cleared again for a local class, so nothing
+                    # is left pending): put the value in place like register_forward_refs does
+                    args[i] = value
+                    if i < len(transformers):
+                        transformers[i] = rule.transformer_cls.resolver_transformer(value) or transformers[i]
+                    evaluated = True
             elif isinstance(arg, LogicalType):
                 if arg.combinator:
                     if arg.register_forward_refs(
@@ -278,6 +288,10 @@ class LogicalType(type):  # noqa
                         registered = True
                 elif mcs._register_rule_refs(arg, global_vars, forward_refs, key, force_clear):
                     registered = True
+        if evaluated:
+            rule.__args__ = tuple(args)
+            if transformers:
+                rule.__arg_transformers__ = tuple(transformers)
         return registered
 
     @classmethod
